@@ -85,6 +85,8 @@ pub struct C17 {
     pub out_stale: bool,
     /// the context archive also holds entries in a sub-directory (`old/<label>.bdd`) with other sets
     pub ctx_decoys: bool,
+    /// how the command line is spelled (0 = short options after the positionals; see `restyle`)
+    pub arg_style: u64,
 }
 
 fn fault_to_json(f: &Fault) -> Value {
@@ -137,7 +139,7 @@ impl C17 {
             "fault": fault_to_json(&self.fault), "clock": self.clock, "rand": self.rand, "io_plan": self.io_plan,
             "prior_crash": self.prior_crash.map(|(a, b)| json!([a, b])),
             "chained_from": self.chained_from,
-            "out_stale": self.out_stale, "ctx_decoys": self.ctx_decoys,
+            "out_stale": self.out_stale, "ctx_decoys": self.ctx_decoys, "arg_style": self.arg_style,
         })
     }
     pub fn from_json(v: &Value) -> Result<C17, String> {
@@ -166,8 +168,80 @@ impl C17 {
             chained_from: v["chained_from"].as_array().map(|a| a.iter().map(|s| s.as_str().unwrap_or("").to_string()).collect()),
             out_stale: v["out_stale"].as_bool().unwrap_or(false),
             ctx_decoys: v["ctx_decoys"].as_bool().unwrap_or(false),
+            arg_style: v["arg_style"].as_u64().unwrap_or(0),
         })
     }
+}
+
+/// Equivalent spellings of the same command line. `args` is the canonical form
+/// `[model, formulae, (-e X)?, (-o Y)?, -p Z]`.
+pub fn restyle(args: &[String], style: u64) -> Vec<String> {
+    if style == 0 || args.len() < 2 {
+        return args.to_vec();
+    }
+    let pos: Vec<String> = args[..2].to_vec();
+    let mut opts: Vec<(String, String)> = Vec::new();
+    let mut i = 2;
+    while i + 1 < args.len() {
+        opts.push((args[i].clone(), args[i + 1].clone()));
+        i += 2;
+    }
+    let long = |o: &str| match o {
+        "-e" => "--extended-context",
+        "-o" => "--output-bundle",
+        _ => "--print-option",
+    };
+    let mut out: Vec<String> = Vec::new();
+    match style {
+        1 => {
+            out.extend(pos);
+            for (o, v) in &opts {
+                out.push(long(o).to_string());
+                out.push(v.clone());
+            }
+        }
+        2 => {
+            out.extend(pos);
+            for (o, v) in &opts {
+                out.push(format!("{}={}", long(o), v));
+            }
+        }
+        3 => {
+            for (o, v) in opts.iter().rev() {
+                out.push(o.clone());
+                out.push(v.clone());
+            }
+            out.extend(pos);
+        }
+        4 => {
+            out.push(pos[0].clone());
+            for (o, v) in &opts {
+                out.push(format!("{o}{v}"));
+            }
+            out.push(pos[1].clone());
+        }
+        5 => {
+            for p in &pos {
+                out.push(if p.starts_with('/') { p.clone() } else { format!("./{p}") });
+            }
+            for (o, v) in &opts {
+                out.push(o.clone());
+                out.push(v.clone());
+            }
+        }
+        _ => {
+            // the default print option left out
+            out.extend(pos);
+            for (o, v) in &opts {
+                if o == "-p" && v == "summary" {
+                    continue;
+                }
+                out.push(o.clone());
+                out.push(v.clone());
+            }
+        }
+    }
+    out
 }
 
 /// The documented rule for formula files: one formula per line, surrounding whitespace is
@@ -404,7 +478,8 @@ pub fn generate(rng: &Rng, world: &World, tier: &str) -> C17 {
     let formula_file = layout(&mut r, &lines);
     let out_stale = out.is_some() && out.as_deref() != Some("context.zip") && r.chance(1, 4);
     let ctx_decoys = with_ctx && r.chance(1, 3);
-    C17 { format, model_text, formula_file, print, out, ctx, fault, clock, rand: r.next_u64(), io_plan, prior_crash, chained_from, out_stale, ctx_decoys }
+    let arg_style = r.weighted(&[6, 2, 2, 2, 2, 1, 1]) as u64;
+    C17 { format, model_text, formula_file, print, out, ctx, fault, clock, rand: r.next_u64(), io_plan, prior_crash, chained_from, out_stale, ctx_decoys, arg_style }
 }
 
 // ---------------------------------------------------------------------------------------------
@@ -1040,7 +1115,7 @@ pub fn check(world: &World, sc: &C17, sandbox: &str) -> Report {
     args.push("-p".to_string());
     args.push(sc.print.clone());
     // --- the run -----------------------------------------------------------------------------
-    let o = match run_cli(&rd, &args, &sc.clock, sc.rand, &sc.io_plan) {
+    let o = match run_cli(&rd, &restyle(&args, sc.arg_style), &sc.clock, sc.rand, &sc.io_plan) {
         Ok(o) => o,
         Err(e) => {
             rep.skipped = Some(e);
@@ -1057,7 +1132,7 @@ pub fn check(world: &World, sc: &C17, sandbox: &str) -> Report {
     // `{:?}` of the duplicate table is hash-order dependent and timing lines are clock dependent:
     // both are functions of the simulated environment, so the whole stdout belongs to the event log
     // the sandbox location is not part of the simulated world: keep it out of the event log
-    let shown_args: Vec<String> = args.iter().map(|a| a.replace(&dir, "$RUN")).collect();
+    let shown_args: Vec<String> = restyle(&args, sc.arg_style).iter().map(|a| a.replace(&dir, "$RUN")).collect();
     rep.event(format!(
         "cli {:?} exit={:?} sig={:?} stdout={:016x} fired={fired_faults:?}",
         shown_args,
@@ -1176,7 +1251,7 @@ pub fn check(world: &World, sc: &C17, sandbox: &str) -> Report {
                 }
                 args.retain(|a| a != "-e" && a != "context.zip");
             }
-            match run_cli(&rd, &args, &steady_clock(), sc.rand ^ 3, "") {
+            match run_cli(&rd, &restyle(&args, sc.arg_style), &steady_clock(), sc.rand ^ 3, "") {
                 Ok(o2) => {
                     rep.event(format!("rerun exit={:?} stdout={:016x}", o2.code, fnv1a(o2.stdout.replace(&dir, "$RUN").as_bytes())));
                     rep.probe("fault_free_reruns", 1);
@@ -1217,7 +1292,7 @@ pub fn check(world: &World, sc: &C17, sandbox: &str) -> Report {
 }
 
 fn finish(mut rep: Report, sc: &C17) -> Report {
-    let mut sig = fnv1a(format!("{}{}{:?}{:?}{}{}{}", sc.format, sc.print, sc.out, sc.fault, sc.io_plan, sc.out_stale, sc.ctx_decoys).as_bytes());
+    let mut sig = fnv1a(format!("{}{}{:?}{:?}{}{}{}", sc.format, sc.print, sc.out, sc.fault, sc.io_plan, sc.out_stale, sc.ctx_decoys).as_bytes()) ^ sc.arg_style;
     sig ^= fnv1a(sc.formula_file.as_bytes()).rotate_left(7);
     sig ^= fnv1a(sc.clock.as_bytes()).rotate_left(17);
     let layout_plain = sc.formula_file.lines().all(|l| l == l.trim() && !l.is_empty() && !l.starts_with('#'));
@@ -1248,6 +1323,7 @@ pub fn shrinks(sc: &C17) -> Vec<C17> {
     push(&|s| s.rand = 0);
     push(&|s| s.fault = Fault::None);
     push(&|s| s.out_stale = false);
+    push(&|s| s.arg_style = 0);
     push(&|s| s.ctx_decoys = false);
     if sc.io_plan.contains(',') {
         for part in sc.io_plan.split(',') {
